@@ -18,6 +18,15 @@
 // every order of creation / registration / first use) and requires the untouched engine under test to
 // keep satisfying the oracle on every route.
 //
+// The output of one application is an ordinary input of the next: repeat.go applies e / escape two, three
+// and four times to the same value (adjacent in one chain, with other filters in between, split over set
+// variables, apply blocks, macro parameters, includes, loops; parser, node trees and direct calls) and
+// requires the output to decode back to the value in exactly as many steps. A value may be reached through
+// a pointer and say something else the next time: mutable.go changes the text of *string, *bytes.Buffer,
+// Stringer pointers, structs, lists, maps and a kept context map between applications (between renders of
+// the same and of other templates and engines, and inside one render) and requires every application to
+// escape the current text.
+//
 // Bounded-exhaustive enumeration of input strings (every code point, every byte string of length
 // <= 2, every string of length <= 5/6 over a 10-symbol alphabet of significant / multi-byte /
 // invalid bytes, every pair and triple of already-escaped forms, long strings, non-string values)
@@ -991,6 +1000,12 @@ func main() {
 			"through every exported way of registering a filter (AddFilter, AddExtension with a CustomExtension / with an Extension type of the caller, RegisterExtension, CreateExtension + AddFilterToExtension) and renders with them, in 8 timelines " +
 			"(other engine created before / after the engine under test; registration before the engine under test exists, while it is cold, after it has rendered; the other engine's first use before or after the first render of the engine under test): " +
 			"the never-customised engine under test must satisfy the unchanged oracle on every route under both names at every point of the timeline; plus the engine under test itself registering filters under names no route uses (upper, shout) in the same ways; " +
+			"repeated application (cases 11-repeat/...): every sequence of 2, 3 and 4 names over {escape, e} (28) applied to the same value in 21 template forms (adjacent in one chain, with blanks, parenthesised, after default(v), with raw / trim / upper in between, " +
+			"split over a set variable - first / last application separate, one variable re-assigned n times -, an apply block as the last application, n nested apply blocks, macro body, macro argument, include, include with, for, if, block of an extending template) and 6 parser-free forms " +
+			"(nested FilterNodes / a SetNode rendered without and with an empty environment = built-in fallback; n chained ApplyFilter calls with no / an empty / the engine's environment): the output must decode back to the value's text in exactly n steps, every intermediate text being a correct escaped form of the next " +
+			"(with trim / upper in between: the output must be the escaped form of what the template without the last application renders), all name sequences of one length byte-identical; " +
+			"values whose text changes (cases 12-mutable/...): 8 kinds of value reached through something (*string, *bytes.Buffer, Stringer pointer, pointer to a named string, pointer to a struct, list and map changed in place, a string replaced in ONE kept context map) x every sequence of three texts over 7 texts (343): " +
+			"after every change all 21 routes run under both names on two engines (the template routes with one context map kept for the whole sequence), then the same sequence with the change made INSIDE one render by a function of the check (bump()) between two applications (print tags / set variables, all four name pairs): every application must escape the value's current text; " +
 			"a case is one block of inputs (<= 553 strings) on a fresh engine; non-trivial = the block contains a significant character or a byte >= 0x80 (apply bodies: the unescaped body does; two engines: the other engine's own e / escape really renders something that is not the escaped form)",
 		Assumptions: []string{
 			"strings longer than 1 MiB + 5 bytes and alphabet strings longer than the bound are not explored",
@@ -1002,6 +1017,10 @@ func main() {
 			"macro text with several references: a reference without e / escape is compared with the same reference alone in a text node (what upper / length do is not examined); texts with a reference that is an error alone (length of a number) are left out for that value; filter chains and arguments inside macro text are not generated; inputs: quick specials, single bytes, the 23 already-escaped forms, alphabet length <= 2, repeats <= 257, code points < U+0100; thorough alphabet length <= 4, pairs and triples of already-escaped forms, all boundary lengths, code points < U+3000",
 			"boundary lengths around 64 KiB are run in the thorough tier only (quick: up to 4097 repeats, and the 1 MiB strings)",
 			"two engines: one other engine per scenario (not several), one registration per scenario, everything on one goroutine; inputs: quick the 20 specials, thorough also the single bytes, the 23 already-escaped forms, alphabet strings of length <= 2 and the non-string values; an engine under test that registers its OWN e / escape is not generated (the statement describes the escape filter and its alias, not a user-supplied filter of that name); what the other engine renders with its own filters is not judged; worker processes are reused, so behaviour that is fixed by the very first use of a filter name in a process is only seen by the workers whose first case is a two-engine case (the dimension is enumerated right after the first block for that reason)",
+			"repeated application: at most 4 applications; a filter applied to the RESULT of a macro call ({{ m(v)|e }}) is not generated (this twig hands the filter the macro callable, not its text - what a macro call is as a filter operand is not the escape's business); filter chains in macro text are not generated (see above); " +
+				"with trim / upper between two applications the text given to the last one is taken from the twin template without it (what trim / upper do is not examined); quick: four applications on 3 template forms (print, set-first, apply-nested) and the 6 parser-free forms only, inputs specials, single bytes, singles and pairs of already-escaped forms, alphabet length <= 3, repeats <= 257, code points < U+0800 inside a?&, non-string values; thorough: all forms, triples of already-escaped forms, alphabet length <= 4, repeats <= 4097, code points < U+3000",
+			"values whose text changes: single goroutine (a value changed WHILE a filter runs is C02's subject); three texts per sequence over 7 texts; the text of the pointer to a named string / to a struct, of the list and of the map is what the unfiltered print tag of the same engine renders at that moment; " +
+				"the change inside one render is made by a registered function between two print tags / set tags of the same template (not for the string in the kept context map: whether a running render sees the caller change its map is open - this twig renders from a copy)",
 			"held results: only windows of consecutive inputs of the enumeration order are held together (not all pairs); in the quick tier the template forms of the registered filter and the code point blocks >= U+3000 run one of the two name rotations per window, alternating; results longer than 16 KiB are kept for later re-verification on the direct routes only",
 		},
 		QuickDeadline:    150,
@@ -1109,6 +1128,23 @@ func main() {
 					tc("9-macrotext/"+b.key+"/"+sname, func() *vlib.Outcome { return runMacroTextBlock(t, b, set(i)) })
 				}
 			}
+			// the escape applied more than once to the same value (repeat.go)
+			for _, nv := range nonStrings() {
+				nv := nv
+				tc("11-repeat/0-nonstring/"+nv.name, func() *vlib.Outcome { return runRepeatNonString(t, nv) })
+			}
+			for _, b := range repeatBlocks(t.Thorough()) {
+				b := b
+				tc("11-repeat/"+b.key, func() *vlib.Outcome { return runRepeatBlock(t, b) })
+			}
+			// values whose text changes between applications (mutable.go)
+			for _, k := range mutKinds {
+				k := k
+				for first := range mutTexts {
+					first := first
+					tc(fmt.Sprintf("12-mutable/%s/first-%d", k.name, first), func() *vlib.Outcome { return runMutable(t, k, first, main) })
+				}
+			}
 			plain(selCodePoints)
 			shaped(true)
 		},
@@ -1126,6 +1162,11 @@ func main() {
 			cov["engines_filter_kinds"] = len(egKinds)
 			cov["engines_name_subsets"] = len(egSubsets(egNames))
 			cov["engines_self_scenarios"] = len(egSelfTimelines) * len(egMechanisms) * len(egKinds) * len(egSubsets(egSelfNames))
+			cov["repeat_forms"] = len(rpForms) + len(rpDirect)
+			cov["repeat_name_sequences"] = len(rpSeqs(2)) + len(rpSeqs(3)) + len(rpSeqs(4))
+			cov["mutable_value_kinds"] = len(mutKinds)
+			cov["mutable_texts"] = len(mutTexts)
+			cov["mutable_in_render_forms"] = len(mutInRender)
 			cov["macro_text_separator_styles"] = len(mtStyles)
 			cov["macro_text_texts_env"] = len(mtSeqs(mtRefsEnv, 3)) * len(mtStyles)
 			cov["macro_text_texts_noenv"] = len(mtSeqs(mtRefsNoEnv, 3)) * len(mtStyles)
